@@ -47,6 +47,7 @@ type side struct {
 	C      core.ICursor
 	off    uint64 // offset + table of the last row a Get returned
 	offTbl string
+	srv    *cspipe.Server // client-server side only
 }
 
 // opDef is one element of the alphabet. run returns the normalised result.
@@ -120,6 +121,25 @@ func alphabet() []opDef {
 		}
 		ops = append(ops, opDef{Name: name, Needs: n, Mut: mut, run: run})
 	}
+	// ---- another client misbehaves: a second connection sends a request with an
+	// invalid command byte (any client can, authenticated or not). The server
+	// answers/closes that connection; it must not affect THIS session's later
+	// requests (the worker pool and its buffers are shared between connections).
+	add("other connection sends an invalid command", true, "", func(s *side) string {
+		if s.srv == nil {
+			return "ok"
+		}
+		conn, err := s.srv.Connect()
+		if err != nil {
+			return "ERR connect: " + err.Error()
+		}
+		rc := &cspipe.RawClient{Conn: conn}
+		if err := rc.Send(1, []byte{0xfe, 1, 2, 3}); err != nil {
+			return "ERR send: " + err.Error()
+		}
+		rc.Recv() // an error reply or the connection being closed: both are fine
+		return "ok"
+	})
 	// ---- IDbms
 	for _, a := range []string{"create t2 (a, b) key(a)", "drop data", "drop nosuch", "alter data create (c)",
 		"create data (k) key(k)"} {
@@ -435,12 +455,18 @@ func runDiff(byName map[string]*opDef, seq []string) (res diffResult) {
 	client := dbms.NewDbmsClient(conn)
 	L := &side{name: "local", db: dbL, dbms: local, th: core.NewThread(nil)}
 	L.th.SetDbms(local)
-	R := &side{name: "client-server", db: dbR, dbms: client.NewSession(), th: core.NewThread(nil)}
+	R := &side{name: "client-server", db: dbR, dbms: client.NewSession(), th: core.NewThread(nil), srv: srv}
 	R.th.SetDbms(R.dbms)
 	// the default session id differs by design (thread name locally, client
 	// address on the server): both sides start from an explicitly set one
 	L.dbms.SessionId(L.th, "c40")
-	R.dbms.SessionId(R.th, "c40")
+	if e := lib.Try(func() { R.dbms.SessionId(R.th, "c40") }); e != nil {
+		// the very first request of a fresh connection failed: the server kept
+		// state from an earlier connection (workers and their buffers are shared)
+		res.fails = append(res.fails, failure{"", fmt.Sprintf(
+			"the first request (SessionId) of a fresh client connection failed: %v", e)})
+		return
+	}
 	for i, name := range seq {
 		op := byName[name]
 		if op == nil {
